@@ -173,12 +173,12 @@ func TestListUnderConcurrentWrites(t *testing.T) {
 				}
 			}
 			if mode.HasTCP() {
-				if pr := rig.ProbeTCP(k); !pr.OK || pr.User != owner {
+				if pr := rig.ProbeTCP(k); !pr.OK || pr.User != owner || !pr.ReplyOK {
 					t.Fatalf("SIG=C08/listed-key-refused tcp client of %s: %+v", owner, pr)
 				}
 			}
 			if mode.HasUDP() {
-				if pr := rig.ProbeUDP(k); !pr.OK || pr.User != owner {
+				if pr := rig.ProbeUDP(k); !pr.OK || pr.User != owner || !pr.ReplyOK {
 					t.Fatalf("SIG=C08/listed-key-refused udp client of %s: %+v", owner, pr)
 				}
 			}
